@@ -23,7 +23,7 @@ type op struct {
 
 func (o op) String() string {
 	switch o.K {
-	case "new", "newfail", "newnosend", "shutdown", "extinc", "extdec":
+	case "new", "newfail", "newtimeout", "newnosend", "shutdown", "extinc", "extdec":
 		return o.K
 	}
 	return fmt.Sprintf("%s(%d)", o.K, o.A)
@@ -32,11 +32,13 @@ func (o op) String() string {
 func (o op) coq() string {
 	switch o.K {
 	case "new":
-		return "NewStream true true"
+		return "NewStream DialOk true"
 	case "newnosend":
-		return "NewStream true false"
+		return "NewStream DialOk false"
 	case "newfail":
-		return "NewStream false true"
+		return "NewStream DialRefused true"
+	case "newtimeout":
+		return "NewStream DialTimeout true"
 	case "send":
 		return fmt.Sprintf("Send %d", o.A)
 	case "resp":
@@ -48,9 +50,15 @@ func (o op) coq() string {
 	case "rreset":
 		return fmt.Sprintf("RemoteReset %d", o.A)
 	case "closer":
-		return fmt.Sprintf("ConnClose %d true", o.A)
+		return fmt.Sprintf("ConnClose %d EvRemote", o.A)
 	case "closel":
-		return fmt.Sprintf("ConnClose %d false", o.A)
+		return fmt.Sprintf("ConnClose %d EvLocal", o.A)
+	case "closerst", "closereaderr":
+		return fmt.Sprintf("ConnClose %d EvReadErr", o.A)
+	case "closewerr":
+		return fmt.Sprintf("ConnClose %d EvWriteErr", o.A)
+	case "closewto":
+		return fmt.Sprintf("ConnClose %d EvWriteTimeout", o.A)
 	case "goaway":
 		return fmt.Sprintf("GoAway %d", o.A)
 	case "shutdown":
@@ -102,10 +110,14 @@ func (o obs) coq() string {
 func (w *world) enabled(full bool) []op {
 	ops := []op{{K: "new"}, {K: "newfail"}}
 	if full {
-		ops = append(ops, op{K: "newnosend"})
+		ops = append(ops, op{K: "newnosend"}, op{K: "newtimeout"})
 	}
-	for _, l := range w.leases {
+	for i, l := range w.leases {
 		if !l.live() {
+			// stale resets of the two most recent finished streams (BaseStream CAS: must be no-ops)
+			if full && i >= len(w.leases)-2 {
+				ops = append(ops, op{"lreset", l.idx})
+			}
 			continue
 		}
 		if !l.sent {
@@ -124,7 +136,10 @@ func (w *world) enabled(full bool) []op {
 		if c.closedMosnSide() || c.up == nil {
 			continue
 		}
-		ops = append(ops, op{"closer", c.idx}, op{"closel", c.idx})
+		ops = append(ops, op{"closer", c.idx}, op{"closel", c.idx}, op{"closerst", c.idx})
+		if full {
+			ops = append(ops, op{"closereaderr", c.idx}, op{"closewerr", c.idx}, op{"closewto", c.idx})
+		}
 		if w.kind == kPingPong {
 			ops = append(ops, op{"goaway", c.idx})
 		}
@@ -142,11 +157,13 @@ func (w *world) enabled(full bool) []op {
 func (w *world) apply(o op) int {
 	switch o.K {
 	case "new":
-		return w.newStream(true, true)
+		return w.newStream(dialOK, true)
 	case "newnosend":
-		return w.newStream(true, false)
+		return w.newStream(dialOK, false)
 	case "newfail":
-		return w.newStream(false, true)
+		return w.newStream(dialRefused, true)
+	case "newtimeout":
+		return w.newStream(dialTimeout, true)
 	case "send":
 		w.send(w.leases[o.A])
 	case "resp":
@@ -158,9 +175,17 @@ func (w *world) apply(o op) int {
 	case "rreset":
 		w.remoteReset(w.leases[o.A])
 	case "closer":
-		w.connClose(w.clients[o.A], true)
+		w.connClose(w.clients[o.A], "fin")
 	case "closel":
-		w.connClose(w.clients[o.A], false)
+		w.connClose(w.clients[o.A], "local")
+	case "closerst":
+		w.connClose(w.clients[o.A], "rst")
+	case "closereaderr":
+		w.connClose(w.clients[o.A], "readerr")
+	case "closewerr":
+		w.connClose(w.clients[o.A], "writeerr")
+	case "closewto":
+		w.connClose(w.clients[o.A], "writetimeout")
 	case "goaway":
 		w.goAway(w.clients[o.A])
 	case "shutdown":
@@ -184,6 +209,15 @@ var resetNames = map[int]string{0: "none", 1: "local-reset", 2: "remote-reset", 
 type finderState struct {
 	overlapSeen map[int]int // upstream conn idx -> overlap count already reported
 	lostSeen    map[int]bool
+	seen        map[string]bool // condition already reported (a broken book is reported at the op that broke it)
+}
+
+func (fs *finderState) first(key string) bool {
+	if fs.seen[key] {
+		return false
+	}
+	fs.seen[key] = true
+	return true
 }
 
 func (w *world) check(fs *finderState, o op, ob obs) []finding {
@@ -241,6 +275,9 @@ func (w *world) check(fs *finderState, o op, ob obs) []finding {
 	// dirty reuse: the lease just granted sits on a connection with a reset exchange in its past
 	if ob.Res == resLeased && ob.ResCli >= 0 {
 		nl := w.leases[len(w.leases)-1]
+		if w.clients[nl.cli].closedMosnSide() {
+			add("closed-connection-leased", fmt.Sprintf("stream %d was leased connection %d, which is closed", nl.idx, nl.cli))
+		}
 		for _, l := range w.leases {
 			if l.cli == nl.cli && l != nl {
 				if _, _, _, rs := l.snap(); rs != "" {
@@ -268,16 +305,16 @@ func (w *world) check(fs *finderState, o op, ob obs) []finding {
 	}
 	for _, c := range w.clients {
 		if c.closedMosnSide() {
-			if idleSet[c.idx] > 0 {
+			if idleSet[c.idx] > 0 && fs.first(fmt.Sprint("closed-idle", c.idx)) {
 				add("closed-connection-in-idle-list:after-"+opClass, fmt.Sprintf("connection %d is closed but still in the idle list", c.idx))
 			}
 			continue
 		}
 		open++
 		switch {
-		case idleSet[c.idx] > 1:
+		case idleSet[c.idx] > 1 && fs.first(fmt.Sprint("dup-idle", c.idx)):
 			add("duplicate-in-idle-list:after-"+opClass, fmt.Sprintf("connection %d appears %d times in the idle list", c.idx, idleSet[c.idx]))
-		case idleSet[c.idx] == 1 && liveOn[c.idx] > 0:
+		case idleSet[c.idx] == 1 && liveOn[c.idx] > 0 && fs.first(fmt.Sprint("leased-idle", c.idx)):
 			add("leased-connection-in-idle-list:after-"+opClass, fmt.Sprintf("connection %d is leased and in the idle list", c.idx))
 		case idleSet[c.idx] == 0 && liveOn[c.idx] == 0:
 			if !fs.lostSeen[c.idx] {
@@ -289,14 +326,14 @@ func (w *world) check(fs *finderState, o op, ob obs) []finding {
 	if idleSet[-1] > 0 {
 		add("unknown-connection-in-idle-list", "idle list holds a connection the host never created")
 	}
-	if int(ob.Total) != open {
+	if int(ob.Total) != open && fs.first(fmt.Sprint("total", int(ob.Total)-open)) {
 		add("total-count-differs-from-open-connections:after-"+opClass, fmt.Sprintf("totalClientCount=%d but %d connections are open", ob.Total, open))
 	}
 	wantReq := int64(0)
 	if w.maxReq != 0 {
 		wantReq = int64(nlive + w.ext)
 	}
-	if ob.Req != wantReq {
+	if ob.Req != wantReq && fs.first(fmt.Sprint("req", ob.Req-wantReq)) {
 		add("requests-counter-differs:after-"+opClass, fmt.Sprintf("Requests().Cur()=%d but %d streams are live (+%d held externally)", ob.Req, nlive, w.ext))
 	}
 	return out
@@ -317,7 +354,7 @@ func (w *world) capacityProbe(fs *finderState) []finding {
 	if !((w.maxConn == 0 || uint64(leased) < w.maxConn) && (w.maxReq == 0 || uint64(nlive+w.ext) < w.maxReq)) {
 		return nil
 	}
-	r := w.newStream(true, true)
+	r := w.newStream(dialOK, true)
 	if r == resLeased {
 		return nil
 	}
@@ -338,6 +375,7 @@ type histResult struct {
 	obs      []obs
 	findings []finding
 	timeouts []string
+	closeEvs []string // close event kinds mosn reported for the connections of this history
 }
 
 func (h *histResult) key() string {
@@ -377,7 +415,7 @@ func runHistory(kind poolKind, maxConn, maxReq uint64, depth int, full bool, pro
 	}
 	defer w.close()
 	h := &histResult{kind: kind, maxConn: maxConn, maxReq: maxReq}
-	fs := &finderState{overlapSeen: map[int]int{}, lostSeen: map[int]bool{}}
+	fs := &finderState{overlapSeen: map[int]int{}, lostSeen: map[int]bool{}, seen: map[string]bool{}}
 	for step := 0; step < depth; step++ {
 		o := pick(step, w.enabled(full))
 		if o == nil {
@@ -393,6 +431,13 @@ func runHistory(kind poolKind, maxConn, maxReq uint64, depth int, full bool, pro
 		h.findings = append(h.findings, w.capacityProbe(fs)...)
 	}
 	h.timeouts = w.timeouts
+	for _, c := range w.clients {
+		c.mu.Lock()
+		if c.lastEv != "" {
+			h.closeEvs = append(h.closeEvs, string(c.lastEv))
+		}
+		c.mu.Unlock()
+	}
 	return h
 }
 
@@ -452,7 +497,7 @@ func c09(args []string) int {
 	if len(os.Getenv("VH_POOL_PROBE")) > 0 {
 		return c09probe(run)
 	}
-	run.Sum.Rule = "histories of pool operations {new stream (connect ok / connect fails / lease without sending), send, response, response with Connection: close, local reset, remote reset, connection close by upstream / by mosn, go-away frame, pool Shutdown, external holder of the cluster's Requests resource +/-} against one real pool (HTTP/1 and xprotocol ping-pong) over loopback TCP, max_connections and max_requests in {0,1,2}; exhaustive part: every sequence of ENABLED operations up to the stated depth (stateless DFS), random part: longer histories; books read after every op; a history is non-trivial when it leases at least one stream and contains at least one op other than new/response; distinct by (pool kind, limits, op sequence)."
+	run.Sum.Rule = "histories of pool operations {new stream (connect ok / connection refused / dial time-out / lease without sending), send, response, response with Connection: close, local reset, remote reset, connection close with every close event kind (upstream FIN = RemoteClose, upstream RST = OnReadErrClose, mosn-side LocalClose / OnReadErrClose / OnWriteErrClose / OnWriteTimeout; idle and leased connections), go-away frame, pool Shutdown, external holder of the cluster's Requests resource +/-} against one real pool (HTTP/1 and xprotocol ping-pong) over loopback TCP, max_connections and max_requests in {0,1,2}; exhaustive part: every sequence of ENABLED operations up to the stated depth (stateless DFS), random part: longer histories; books read after every op; a history is non-trivial when it leases at least one stream and contains at least one op other than new/response; distinct by (pool kind, limits, op sequence)."
 
 	var cfgs []poolCfg
 	for _, k := range []poolKind{kHTTP1, kPingPong} {
@@ -462,13 +507,8 @@ func c09(args []string) int {
 			}
 		}
 	}
-	depth := run.N(4, 6)
-	exhaustiveCfgs := cfgs
-	if !run.Thorough() {
-		// quick tier: all 18 configurations at depth 3, the interesting ones at depth 4
-		exhaustiveCfgs = nil
-	}
-
+	// exhaustive depth: quick 4 (5 for max_connections=2/max_requests=1), thorough 5 (6 for three configurations where the limits bind)
+	depth := run.N(4, 5)
 	var mu sync.Mutex
 	var results []*histResult
 	collect := func(h *histResult) {
@@ -481,8 +521,6 @@ func c09(args []string) int {
 	var jobs []job
 	addExhaustive := func(c poolCfg, d int) {
 		// split on the first choice
-		probeH := runHistory(c.kind, c.maxConn, c.maxReq, 0, false, false, func(int, []op) *op { return nil })
-		_ = probeH
 		w, _ := newWorld(c.kind, c.maxConn, c.maxReq)
 		n0 := len(w.enabled(false))
 		w.close()
@@ -502,21 +540,15 @@ func c09(args []string) int {
 			})
 		}
 	}
-	if run.Thorough() {
-		for _, c := range exhaustiveCfgs {
-			addExhaustive(c, depth)
+	for _, c := range cfgs {
+		d := depth
+		if (c.maxConn == 2 && c.maxReq == 1) || (run.Thorough() && ((c.maxConn == 1 && c.maxReq == 0) || (c.maxConn == 1 && c.maxReq == 2))) {
+			d = depth + 1
 		}
-	} else {
-		for _, c := range cfgs {
-			d := 3
-			if (c.maxConn == 2 && c.maxReq == 1) || (c.maxConn == 1 && c.maxReq == 0) || (c.maxConn == 0 && c.maxReq == 2) {
-				d = 4
-			}
-			addExhaustive(c, d)
-		}
+		addExhaustive(c, d)
 	}
 	// random part: longer histories, all op kinds incl. lease-without-send
-	nrand := run.N(400, 6000)
+	nrand := run.N(1500, 20000)
 	rlen := run.N(30, 40)
 	seeds := make([]uint64, nrand)
 	for i := range seeds {
@@ -575,6 +607,9 @@ func c09(args []string) int {
 			if h.obs[i].Res != resNone {
 				run.Sum.Distribution["result:"+resNames[h.obs[i].Res]]++
 			}
+		}
+		for _, e := range h.closeEvs {
+			run.Sum.Distribution["close-event:"+e]++
 		}
 		run.Count(h.key(), nontrivial && leased, "pool:"+h.kind.String(), fmt.Sprintf("len=%d", len(h.ops)))
 		if len(h.timeouts) > 0 {
